@@ -250,8 +250,10 @@ func Resolve(all []*Op, p Params) *State {
 		}
 		return o.Num > baseN
 	}
-	consumed = map[string]bool{}
-	for st.Update != "" {
+	// the set of consumed commitments carries over from the recovery chain: a commitment is consumed at most once in
+	// the course of a resolution, in whichever chain it comes up again (an update chain that would start with a
+	// commitment the recovery chain has consumed does not start)
+	for st.Update != "" && !consumed[st.Update] {
 		c := st.Update
 		var pick *Op
 		for _, o := range ops {
